@@ -164,7 +164,7 @@ class LifeCycle:
                 raise AnalysisError(f'{self.cls.name}._start waits on no event')
             self.sync_event = ev
             for n in g.nodes:
-                if n.kind == 'stmt' and n.part == 'post' and any(last_attr(c) == 'set' and receiver(c) == f'self.{ev}' for c in calls_in(n.stmt)):
+                if n.kind == 'stmt' and n.part == 'post' and any(last_attr(c) == 'set' and receiver(c) == f'self.{ev}' for c in n.calls()):
                     self.sync_nodes.append(n)
             for st in walk_local(self.main.node):
                 if isinstance(st, ast.Assign) and len(st.targets) == 1 and is_self_attr(st.targets[0], self.slot):
@@ -240,15 +240,15 @@ class LifeCycle:
             if self.ctrl_attr is None:
                 raise AnalysisError(f'{self.cls.name}: child-main starts no control thread')
         # region: everything reachable from a sync node
-        work = lambda n: n.stmt is not None and any(last_attr(c) == 'do_work' and receiver(c) == 'self' for c in calls_in(n.stmt))
+        work = lambda n: n.stmt is not None and any(last_attr(c) == 'do_work' and receiver(c) == 'self' for c in n.calls())
         self.primary_sync = [s for s in self.sync_nodes if g.find_path([s], work, edge_ok=is_flow)]
         if not self.primary_sync:
             raise AnalysisError(f'{self.cls.name}: no start-up sync point of {self.main.short} leads to do_work()')
         self.region = g.reachable(self.primary_sync)
         self._compute_capable()
         # do_work call nodes
-        self.work_nodes = [n for n in g.nodes if n.kind == 'stmt' and n.part in ('eval',) and any(last_attr(c) == 'do_work' and receiver(c) == 'self' for c in calls_in(n.stmt))]
-        self.cleanup_nodes = [n for n in g.nodes if n.kind == 'stmt' and n.part in ('eval',) and any(last_attr(c) == '_cleanup' and receiver(c) == 'self' for c in calls_in(n.stmt))]
+        self.work_nodes = [n for n in g.nodes if n.kind == 'stmt' and n.part in ('eval',) and any(last_attr(c) == 'do_work' and receiver(c) == 'self' for c in n.calls())]
+        self.cleanup_nodes = [n for n in g.nodes if n.kind == 'stmt' and n.part in ('eval',) and any(last_attr(c) == '_cleanup' and receiver(c) == 'self' for c in n.calls())]
 
     def _compute_capable(self):
         """Nodes at which an asynchronous WorkerTerminatedError can still arrive (the injector may be alive)."""
@@ -261,7 +261,7 @@ class LifeCycle:
         def edge_ok(e):
             src = e.src
             if src.stmt is not None and src.part == 'post' and e.kind == 'norm' and any(
-                    last_attr(c) == 'join' and receiver(c) == T and not c.args and not c.keywords for c in calls_in(src.stmt)):
+                    last_attr(c) == 'join' and receiver(c) == T and not c.args and not c.keywords for c in src.calls()):
                 return False      # the injector has been joined
             if src.kind == 'test' and e.kind == 'false' and isinstance(src.stmt, (ast.If, ast.While)):
                 t = src.stmt.test
@@ -308,7 +308,7 @@ def landing_label(node):
     if node.stmt is None:
         return node.kind
     names = []
-    for c in calls_in(node.stmt) if not isinstance(node.stmt, (ast.If, ast.While, ast.For, ast.With, ast.Try)) else \
+    for c in node.calls() if not isinstance(node.stmt, (ast.If, ast.While, ast.For, ast.With, ast.Try)) else \
             [c for ex in ([node.stmt.test] if hasattr(node.stmt, 'test') else [getattr(node.stmt, 'iter', None)] if hasattr(node.stmt, 'iter') else
                           [it.context_expr for it in node.stmt.items] if hasattr(node.stmt, 'items') else []) if ex is not None for c in calls_in(ex)]:
         d = dotted(c.func) or last_attr(c) or '?'
